@@ -453,7 +453,12 @@ func c12(w *core.World, r *core.Report) {
 					}
 				}
 				nLossy++
-				if reason, ok := lossyExceptions[core.FuncKey(f)+"|"+cv.X.Type().String()+"->"+cv.Type().String()]; ok {
+				reason, ok := lossyExceptions[core.FuncKey(f)+"|"+cv.X.Type().String()+"->"+cv.Type().String()]
+				if !ok {
+					// code moved into an unexported helper keeps the exception of the function it was moved out of
+					reason, ok = lossyExceptions[core.HostKey(f)+"|"+cv.X.Type().String()+"->"+cv.Type().String()]
+				}
+				if ok {
 					r.OK("LOSSY", site, w.InstrPos(cv), "frozen exception: "+reason)
 					continue
 				}
